@@ -154,6 +154,9 @@ where
             account.mark_touch();
             let _ = state.insert(self.beneficiary, account);
         }
+        #[cfg(grevm_verif)]
+        crate::verif_export::observe_commit(txid, &result, &state, deferred_reward.is_some());
+        vpoint!(COMMIT_APPLY);
         self.state.commit(state);
         Ok(CommitOutcome::Committed(output.push(result)))
     }
